@@ -94,4 +94,77 @@ theorem reversibleSegment_complete (db : DB) (hh : Heights db) (hi : InitNumOK d
     (by have := isPath_length_le db _ ids hp hn; omega)
   exact ⟨l, by rw [h1]; simp, h2⟩
 
+/-! ### the LIB is actually followed: `BlockInCurrentChain` and `HasNewIrreversibleSegment` are complete on pending blocks -/
+
+/-- walking down a path of stored blocks whose heights grow, `BlockInCurrentChain` stops at the block the path rests
+    on when that block has the target height -/
+theorem blockInChainAux_complete (db : DB) (hh : Heights db) (x : Id) (ex : Entry) (hx : db.find x = some ex)
+    (post : List Id) (hp : IsPath db x post) (hne : post ≠ []) :
+    ∀ (fuel : Nat) (curNum : Nat), post.length ≤ fuel →
+      db.blockInChainAux ex.blk.num fuel (topOf x post) curNum = ⟨x, ex.blk.num⟩ := by
+  induction post using rev_ind with
+  | nil => exact absurd rfl hne
+  | append_singleton l y ih =>
+    intro fuel curNum hf
+    rw [isPath_append] at hp
+    simp only [IsPath, and_true] at hp
+    obtain ⟨hp1, hlink, _⟩ := hp
+    cases fuel with
+    | zero => simp at hf
+    | succ n =>
+      simp only [topOf_append_singleton]
+      unfold DB.blockInChainAux
+      simp only [hlink]
+      by_cases hl : l = []
+      · subst hl
+        simp only [topOf_nil]
+        have : db.numOf? x = some ex.blk.num := by simp [DB.numOf?, hx]
+        rw [this]
+        simp
+      · -- the previous block is above x: keep walking
+        have hmem : topOf x l ∈ l := by
+          rcases topOf_mem x l with h | h
+          · rcases List.eq_nil_or_concat l with h0 | ⟨l0, z, hz⟩
+            · exact absurd h0 hl
+            · rw [List.concat_eq_append] at hz; subst hz; simp
+          · exact h
+        cases hfp : db.find (topOf x l) with
+        | none =>
+          have := isPath_present db x l hp1 _ hmem
+          rw [hfp] at this; cases this
+        | some ep =>
+          have hhigh : ex.blk.num < ep.blk.num :=
+            heights_path db hh x ex.blk.num l hp1
+              (fun e he hpar => hh.1 e he ex (find_mem db x ex hx) (by rw [hpar, find_id db x ex hx])) _ hmem ep hfp
+          have : db.numOf? (topOf x l) = some ep.blk.num := by simp [DB.numOf?, hfp]
+          rw [this]
+          simp only
+          rw [if_neg (by simp; omega), if_neg (by omega)]
+          exact ih hp1 hl n ep.blk.num (by simp only [List.length_append, List.length_singleton] at hf; omega)
+
+theorem blockInChain_complete (db : DB) (hh : Heights db) (x : Id) (ex : Entry) (hx : db.find x = some ex)
+    (post : List Id) (hp : IsPath db x post) (hne : post ≠ []) (hlen : post.length ≤ db.entries.length)
+    (start : Ref) (hs : start.id = topOf x post) (hnum : start.num ≠ ex.blk.num) :
+    db.blockInChain start ex.blk.num = ⟨x, ex.blk.num⟩ := by
+  unfold DB.blockInChain
+  rw [if_neg (by simpa using hnum), hs]
+  exact blockInChainAux_complete db hh x ex hx post hp hne _ _ (by omega)
+
+/-- a pending block — a block on a path resting on the LIB — is the end of a new irreversible segment -/
+theorem hasNew_complete (db : DB) (hh : Heights db) (hi : InitNumOK db) (fsb : Nat) (pre : List Id) (x : Id)
+    (hp : IsPath db db.libRef.id (pre ++ [x])) (hn : db.libRef.id ∉ pre ++ [x]) (R : Ref) (hR : R.id = x)
+    (hnum : R.num = db.numOf x) : (db.hasNewIrreversibleSegment fsb R).1 = true := by
+  unfold DB.hasNewIrreversibleSegment
+  have hne : (db.libRef.id == R.id) = false := by
+    cases h : db.libRef.id == R.id
+    · rfl
+    · exact absurd (by rw [beq_iff_eq.mp h, hR]; simp) hn
+  rw [hne]
+  simp only [Bool.false_eq_true, if_false]
+  obtain ⟨l, h1, h2⟩ := reversibleSegment_complete db hh hi fsb (pre ++ [x]) hp hn R (by rw [hR]; simp) (by rw [hR]; exact hnum)
+  rw [h1]
+  cases l with
+  | nil => simp at h2
+  | cons c cs => rfl
+
 end BstreamVerif.ForkDB
